@@ -516,6 +516,66 @@ fn sweep_entry(r: &mut Rng, width: usize, style: u64, cs: ClearState, balance_on
     LedgerEntry::Txn(t)
 }
 
+/// expression shapes that exercise every arm of fmt_with_alignment (Partial/Complete on either
+/// side of a binary operator, under parentheses and negation)
+fn shaped_expr(r: &mut Rng, shape: u64) -> ValueExpr<'static> {
+    let lit = |r: &mut Rng, with_commodity: bool| -> Expr<'static> {
+        let n = int_digits(r);
+        Expr::Value(Box::new(ValueExpr::Amount(Amount {
+            value: pdec(r, n),
+            commodity: Cow::Owned(if with_commodity { commodity(r, false) } else { String::new() }),
+        })))
+    };
+    let bin = |op: BinaryOp, l: Expr<'static>, rr: Expr<'static>| Expr::Binary(BinaryOpExpr { op, lhs: Box::new(l), rhs: Box::new(rr) });
+    let neg = |e: Expr<'static>| Expr::Unary(UnaryOpExpr { op: UnaryOp::Negate, expr: Box::new(e) });
+    let paren = |e: Expr<'static>| Expr::Value(Box::new(ValueExpr::Paren(e)));
+    let e = match shape % 8 {
+        0 => bin(BinaryOp::Mul, lit(r, false), lit(r, true)),
+        1 => bin(BinaryOp::Mul, lit(r, true), lit(r, false)),
+        2 => bin(BinaryOp::Add, lit(r, false), lit(r, false)),
+        3 => neg(lit(r, true)),
+        4 => {
+            let inner = bin(BinaryOp::Add, lit(r, false), lit(r, false));
+            bin(BinaryOp::Mul, paren(inner), lit(r, true))
+        }
+        5 => {
+            let inner = bin(BinaryOp::Sub, lit(r, false), lit(r, true));
+            bin(BinaryOp::Div, neg(paren(inner)), lit(r, false))
+        }
+        6 => {
+            let a = bin(BinaryOp::Div, lit(r, false), lit(r, false));
+            let b = bin(BinaryOp::Mul, lit(r, false), lit(r, true));
+            bin(BinaryOp::Add, a, b)
+        }
+        _ => bin(BinaryOp::Add, lit(r, true), lit(r, true)),
+    };
+    ValueExpr::Paren(e)
+}
+
+fn shaped_entry(r: &mut Rng, shape: u64, delta: i64, balance_only: bool) -> LedgerEntry<'static> {
+    let v = shaped_expr(r, shape);
+    let cs = clear_state(r);
+    let target = if balance_only {
+        let s = shown(&v);
+        let trailing = UnicodeWidthStr::width_cjk(s.as_str()) as i64 - align_of(&v) as i64;
+        50 + trailing - 3 + delta
+    } else {
+        48 - 2 - align_of(&v) as i64 + delta
+    };
+    let width = (target - mark_len(cs) as i64).clamp(1, 70) as usize;
+    let style = r.below(3);
+    let mut p = Posting::new_untracked(account(r, width, style));
+    p.clear_state = cs;
+    if balance_only {
+        p.balance = Some(v);
+    } else {
+        p.amount = Some(PostingAmount { amount: v, cost: None, lot: Lot::default() });
+    }
+    let mut t = Transaction::new(NaiveDate::from_ymd_opt(2024, 1, 1).unwrap(), "shapes");
+    t.posts = vec![p];
+    LedgerEntry::Txn(t)
+}
+
 // ------------------------------------------------------------------------------------------
 // observation and case writing
 // ------------------------------------------------------------------------------------------
@@ -639,6 +699,12 @@ fn replay_record(run: &mut Run, v: &Value) {
                     let e = entry(&mut r);
                     run.display_case(&e, "replay", o.clone());
                 }
+                Some("shaped") => {
+                    let mut r = Rng::new(seed, stream);
+                    let a = &o["args"];
+                    let e = shaped_entry(&mut r, a[0].as_u64().unwrap_or(0), a[1].as_i64().unwrap_or(0), a[2].as_bool().unwrap_or(false));
+                    run.display_case(&e, "replay", o.clone());
+                }
                 Some("sweep") => {
                     let mut r = Rng::new(seed, stream);
                     let a = &o["args"];
@@ -740,6 +806,23 @@ pub fn run(o: &Opts) {
                                             "args": [width, style, ci, balance_only, dg]});
                         run.display_case(&e, "sweep", origin);
                     }
+                }
+            }
+        }
+    }
+
+    // 2b. expression shapes around the boundary
+    let reps = if o.thorough { 6 } else { 1 };
+    for shape in 0..8u64 {
+        for delta in -5..=5i64 {
+            for balance_only in [false, true] {
+                for _ in 0..reps {
+                    k += 1;
+                    let stream = 1_000_000 + k;
+                    let mut r = Rng::new(o.seed, stream);
+                    let e = shaped_entry(&mut r, shape, delta, balance_only);
+                    let origin = json!({"gen": "shaped", "seed": o.seed, "stream": stream, "args": [shape, delta, balance_only]});
+                    run.display_case(&e, "shaped-expression", origin);
                 }
             }
         }
